@@ -66,6 +66,11 @@ LeafTable ==
     \* differs from objdef only in an annotation-like keyword (the default value)
     objdef2 |-> L(("type" :> <<"object">>) @@ ("properties" :> <<[k |-> "k", s |-> ("type" :> <<"integer">>) @@ ("default" :> JNum(12))]>>),
                  <<JObj(<<>>), ObjK(JNum(4)), ObjK(JNull), ObjK(SA)>>, JObj(<<>>)),
+    \* a required key with / without a default (a default lifts the presence check): differ only in the annotation
+    oreqd  |-> L(("type" :> <<"object">>) @@ ("properties" :> <<[k |-> "k", s |-> ("type" :> <<"integer">>) @@ ("default" :> JNum(8))]>>)
+                 @@ ("required" :> <<"k">>), <<JObj(<<>>), ObjK(JNum(4)), ObjK(SA)>>, ObjK(JNum(4))),
+    oreq   |-> L(("type" :> <<"object">>) @@ ("properties" :> <<[k |-> "k", s |-> Int_]>>)
+                 @@ ("required" :> <<"k">>), <<JObj(<<>>), ObjK(JNum(4)), ObjK(SA)>>, ObjK(JNum(4))),
     date   |-> L([type |-> <<"string">>, format |-> "date"], <<JFmt("date"), JNum(4), JBool(TRUE)>>, JFmt("date")),
     nint   |-> L(("type" :> <<"integer", "null">>) @@ ("minimum" :> JNum(8)), <<JNull, JNum(8), JNum(4), SA>>, JNum(8)),
     map    |-> L([type |-> <<"object">>, additionalProperties |-> [k |-> "s", s |-> Int_]],
@@ -76,9 +81,10 @@ LeafTable ==
                  JObj(<<KV("p", JNum(4))>>)) ]
 Leaves == DOMAIN LeafTable
 \* the other leaf of the two-target layouts
-AltOf(k) == CASE k = "bool" -> "int" [] k = "objdef" -> "objdef2" [] k = "objdef2" -> "objdef" [] OTHER -> "bool"
+AltOf(k) == CASE k = "bool" -> "int" [] k = "objdef" -> "objdef2" [] k = "objdef2" -> "objdef"
+              [] k = "oreqd" -> "oreq" [] k = "oreq" -> "oreqd" [] OTHER -> "bool"
 
-Contexts == {"req", "opt", "item", "nested", "addl", "req2", "two", "twoall"}
+Contexts == {"req", "opt", "item", "nested", "addl", "req2", "two", "twoall", "collide"}
 GenericForms == {"inline", "defs", "definitions", "chain", "file", "filedef", "subdir", "updir", "yaml", "noext", "dotslash"}
 \* a document that is the target of a file reference needs a typed root ("schema has no root" otherwise; the
 \* tool turns an untyped root into an object): the untyped enum cannot be the root of a file
@@ -87,6 +93,7 @@ FormsOf(c, k) == (CASE c = "nested" -> GenericForms \cup {"filechain"}
                     [] c = "req2"   -> GenericForms \cup {"dotdot"}
                     [] c = "two"    -> {"inline", "samefile", "samedef", "samedefinline"}
                     [] c = "twoall" -> {"inline", "samebranch"}
+                    [] c = "collide" -> {"inline", "namecollide"}
                     [] OTHER        -> GenericForms) \ (IF k = "enumu" THEN RootForms ELSE {})
 
 (* ---------- references ---------- *)
@@ -109,7 +116,7 @@ RootOf(c, x, x2) ==
     [] c = "nested" -> ObjReq(<<[k |-> "x", s |-> Obj(<<[k |-> "y", s |-> x]>>)]>>, <<"x">>)
     [] c = "addl"   -> Obj(<<[k |-> "p", s |-> Int_]>>) @@ ("additionalProperties" :> [k |-> "s", s |-> x])
     [] c = "req2"   -> ObjReq(<<[k |-> "x", s |-> x], [k |-> "x2", s |-> x2]>>, <<"x", "x2">>)
-    [] c \in {"two", "twoall"} -> Obj(<<[k |-> "a", s |-> x], [k |-> "b", s |-> x2]>>)
+    [] c \in {"two", "twoall", "collide"} -> Obj(<<[k |-> "a", s |-> x], [k |-> "b", s |-> x2]>>)
 
 DocsOf(c, lf, alt) ==
   LET vs == lf.vals  ok == lf.ok IN
@@ -119,6 +126,10 @@ DocsOf(c, lf, alt) ==
     [] c = "addl"   -> [i \in DOMAIN vs |-> JObj(<<KV("e", vs[i]), KV("p", JNum(4))>>)] \o <<JObj(<<>>)>>
     [] c = "req2"   -> [i \in DOMAIN vs |-> JObj(<<KV("x", vs[i]), KV("x2", ok)>>)]
                        \o [i \in DOMAIN vs |-> JObj(<<KV("x", ok), KV("x2", vs[i])>>)]
+    \* a.q.c holds the leaf, b.c the other leaf
+    [] c = "collide" -> [i \in DOMAIN vs |-> JObj(<<KV("a", JObj(<<KV("q", JObj(<<KV("c", vs[i])>>))>>)), KV("b", JObj(<<KV("c", alt.ok)>>))>>)]
+                        \o [i \in DOMAIN alt.vals |-> JObj(<<KV("a", JObj(<<KV("q", JObj(<<KV("c", ok)>>))>>)), KV("b", JObj(<<KV("c", alt.vals[i])>>))>>)]
+                        \o <<JObj(<<KV("a", JObj(<<KV("q", JObj(<<>>))>>)), KV("b", JObj(<<>>))>>)>>
     [] c \in {"two", "twoall"} -> [i \in DOMAIN vs |-> JObj(<<KV("a", JObj(<<KV("c", vs[i])>>)), KV("b", JObj(<<KV("c", alt.ok)>>))>>)]
                        \o [i \in DOMAIN alt.vals |-> JObj(<<KV("a", JObj(<<KV("c", ok)>>)), KV("b", JObj(<<KV("c", alt.vals[i])>>))>>)]
                        \o [i \in DOMAIN vs |-> JObj(<<KV("b", JObj(<<KV("c", vs[i])>>))>>)]       \* the other leaf's values at b
@@ -141,8 +152,13 @@ Unit(c, k, f) ==
       plain(sch, defs, ldefs, files) == MkUnit(c, k, f, top, sch, defs, ldefs, files, <<>>, "RootJson")
   IN
   CASE f = "inline"      -> IF c = "two" THEN plain(RootOf(c, Obj(<<[k |-> "c", s |-> lf]>>), Obj(<<[k |-> "c", s |-> alt]>>)), <<>>, <<>>, <<>>)
+                            ELSE IF c = "collide" THEN plain(RootOf(c, Obj(<<[k |-> "q", s |-> Obj(<<[k |-> "c", s |-> lf]>>)]>>), Obj(<<[k |-> "c", s |-> alt]>>)), <<>>, <<>>, <<>>)
                             ELSE IF c = "twoall" THEN plain(RootOf(c, AllOfC(Obj(<<[k |-> "c", s |-> lf]>>)), AllOfC(Obj(<<[k |-> "c", s |-> alt]>>))), <<>>, <<>>, <<>>)
                             ELSE plain(RootOf(c, lf, lf), <<>>, <<>>, <<>>)
+    \* ONE document in which two schemas map to the same Go type name: definition P with an inline object property q
+    \* (type PQ) and a definition named PQ
+    [] f = "namecollide" -> plain(RootOf(c, RDefs("P"), RDefs("PQ")),
+                                  <<[k |-> "P", s |-> Obj(<<[k |-> "q", s |-> Obj(<<[k |-> "c", s |-> lf]>>)]>>)], [k |-> "PQ", s |-> Obj(<<[k |-> "c", s |-> alt]>>)]>>, <<>>, <<>>)
     \* two documents whose allOf lists hold the textually identical branch "$ref": "#/$defs/Base" with different targets
     [] f = "samebranch"  -> plain(RootOf(c, RPath(<<"d1.json">>, "Wa", "Wa"), RPath(<<"d2.json">>, "Wb", "Wb")), <<>>, <<>>,
                                   <<File(<<"d1.json">>, "F1", Obj(<<>>), <<[k |-> "Base1", s |-> Obj(<<[k |-> "c", s |-> lf]>>)], [k |-> "Wa", s |-> AllOfC(RDefs("Base1"))]>>, FALSE),
@@ -187,9 +203,7 @@ Unit(c, k, f) ==
 \* of Valid is a plain name -> schema map.
 
 (* ---------- environment, inlining ---------- *)
-RECURSIVE FileEnv(_)
-FileEnv(fs) == IF fs = <<>> THEN <<>> ELSE <<[k |-> Head(fs).name, s |-> Head(fs).s]>> \o Head(fs).defs \o FileEnv(Tail(fs))
-Env(un) == un.defs \o un.ldefs \o FileEnv(un.files)
+Env(un) == UnitEnv(un)
 
 RECURSIVE Deref(_, _, _)
 Deref(env, s, fuel) ==
